@@ -301,6 +301,7 @@ type SelCase interface {
 	enqueue(g *selGroup, idx int, t *Task)
 	collect() // after the group fired through a partner: fetch the result
 	park(t *Task)
+	retire(g *selGroup) // remove this select's waiters from the channel's queues
 }
 
 type recvCase[T any] struct {
@@ -360,6 +361,48 @@ func (r *recvCase[T]) park(t *Task) {
 	if r.c != nil {
 		r.c.wl.add(t)
 	}
+}
+
+//go:norace
+func (r *recvCase[T]) retire(g *selGroup) {
+	if r.c != nil {
+		r.c.dropGroup(g)
+	}
+}
+
+//go:norace
+func (s *sendCase[T]) retire(g *selGroup) {
+	if s.c != nil {
+		s.c.dropGroup(g)
+	}
+}
+
+// dropGroup removes the queued waiters of one select statement.
+//
+//go:norace
+func (c *Chan[T]) dropGroup(g *selGroup) {
+	n := 0
+	for i := 0; i < c.nsq; i++ {
+		if c.sq[i].group != g {
+			c.sq[n] = c.sq[i]
+			n++
+		}
+	}
+	for i := n; i < c.nsq; i++ {
+		c.sq[i] = nil
+	}
+	c.nsq = n
+	n = 0
+	for i := 0; i < c.nrq; i++ {
+		if c.rq[i].group != g {
+			c.rq[n] = c.rq[i]
+			n++
+		}
+	}
+	for i := n; i < c.nrq; i++ {
+		c.rq[i] = nil
+	}
+	c.nrq = n
 }
 
 //go:norace
@@ -433,7 +476,10 @@ func selectRun(hasDefault bool, cases []SelCase) int {
 		// a closed channel makes a clause ready without a partner firing it
 		for i, c := range cases {
 			if c.ready() && !g.fired {
-				g.fired = true // retire the queued waiters
+				g.fired = true // the queued waiters are dead from now on
+				for _, o := range cases {
+					o.retire(g)
+				}
 				c.fireNow()
 				return i
 			}
@@ -445,6 +491,9 @@ func selectRun(hasDefault bool, cases []SelCase) int {
 			c.park(t)
 		}
 		S.block(t)
+	}
+	for _, o := range cases {
+		o.retire(g)
 	}
 	cases[g.idx].collect()
 	return g.idx
